@@ -110,3 +110,152 @@ def _taper(env, **cfg):
     m = mesh(cfg["nx"], _shape(cfg)[1], cfg["symmetry"], cfg.get("side", "left"))
     derivative_contract(env, lambda: cls("geometry.geometry_mesh_transformations.Taper")(
         val=1.0, mesh=m.copy(), symmetry=cfg["symmetry"], ref_axis_pos=cfg["ref_axis_pos"]))
+
+
+# ------------------------------------------------------------------------------------------- single-surface components
+
+def _surf(name, path, cfgs=None, ranges=(), cost=1.0, extra_opts=None, surf_kw=None, **dk):
+    @job("deriv." + name, ("C01", "C03"), cfgs=cfgs or product(shapes_1surf(), SYM_Q), ranges=ranges, cost=cost)
+    def _f(env, **cfg):
+        env.add_ranges(*MESH_RANGES)
+        s = surf_of(cfg, **(surf_kw or {}))
+        o = dict(surface=s)
+        if extra_opts:
+            o.update(extra_opts(cfg) if callable(extra_opts) else extra_opts)
+        derivative_contract(env, lambda: cls(path)(**o), **dk)
+    return _f
+
+
+def _surfs(name, path, cfgs=None, ranges=(), cost=1.0, extra_opts=None, **dk):
+    @job("deriv." + name, ("C01", "C03"), cfgs=cfgs or MULTI, ranges=ranges, cost=cost)
+    def _f(env, **cfg):
+        env.add_ranges(*MESH_RANGES)
+        o = dict(surfaces=two_surfaces(cfg))
+        if extra_opts:
+            o.update(extra_opts(cfg) if callable(extra_opts) else extra_opts)
+        derivative_contract(env, lambda: cls(path)(**o), **dk)
+    return _f
+
+
+MULTI = [dict(nx=2, ny=3, symmetry=True, side="left", nsurf=1),
+         dict(nx=2, ny=3, symmetry=False, nsurf=1),
+         dict(nx=2, ny=3, symmetry=True, side="left", nsurf=2, _tier=T),
+         dict(nx=3, ny=3, symmetry=True, side="right", nsurf=1, _tier=T),
+         dict(nx=2, ny=4, symmetry=True, side="left", nsurf=1, _tier=T)]
+MULTI_GP = MULTI + [dict(nx=2, ny=3, symmetry=True, side="left", nsurf=1, groundplane=True),
+                    dict(nx=2, ny=3, symmetry=True, side="right", nsurf=2, groundplane=True, _tier=T)]
+
+AREA = [dict(S_ref_type="wetted"), dict(S_ref_type="projected")]
+
+_surf("VLMGeometry", "aerodynamics.geometry.VLMGeometry", cfgs=product(shapes_1surf(), SYM_Q, AREA), cost=20)
+_surf("LiftDrag", "aerodynamics.lift_drag.LiftDrag")
+_surf("LiftCoeff2D", "aerodynamics.lift_coeff_2D.LiftCoeff2D")
+_surf("TotalDrag", "aerodynamics.total_drag.TotalDrag")
+_surf("TotalLift", "aerodynamics.total_lift.TotalLift")
+_surf("ViscousDrag", "aerodynamics.viscous_drag.ViscousDrag", extra_opts=dict(with_viscous=True), cost=10,
+      ranges=[(r"^(P\.)?re", 1e5, 1e6), (r"^(P\.)?Mach", 0.2, 0.8), (r"^(P\.)?t_over_c", 0.05, 0.2), (r"cos_sweep", 0.7, 1.0)])
+_surf("ViscousDrag.off", "aerodynamics.viscous_drag.ViscousDrag", extra_opts=dict(with_viscous=False))
+_surf("WaveDrag", "aerodynamics.wave_drag.WaveDrag", ranges=[(r"^(P\.)?Mach", 0.5, 0.9), (r"t_over_c", 0.05, 0.2), (r"cos_sweep", 0.7, 1.0), (r"CL", 0.2, 0.6)])
+_surf("WaveDrag.off", "aerodynamics.wave_drag.WaveDrag", surf_kw=dict(with_wave=False))
+
+
+@job("deriv.Coeffs", ("C01", "C03"))
+def _coeffs(env):
+    derivative_contract(env, lambda: cls("aerodynamics.coeffs.Coeffs")())
+
+
+_surfs("CollocationPoints", "aerodynamics.collocation_points.CollocationPoints")
+_surfs("VortexMesh", "aerodynamics.vortex_mesh.VortexMesh", cfgs=MULTI_GP)
+_surfs("GetVectors", "aerodynamics.get_vectors.GetVectors", cfgs=MULTI_GP,
+       extra_opts=dict(num_eval_points=2, eval_name="coll_pts"))
+_surfs("EvalVelocities", "aerodynamics.eval_velocities.EvalVelocities", extra_opts=dict(num_eval_points=2, eval_name="force_pts"))
+_surfs("HorseshoeCirculations", "aerodynamics.horseshoe_circulations.HorseshoeCirculations")
+_surfs("MeshPointForces", "aerodynamics.mesh_point_forces.MeshPointForces")
+_surfs("VLMMtxRHSComp", "aerodynamics.mtx_rhs.VLMMtxRHSComp")
+_surfs("PanelForces", "aerodynamics.panel_forces.PanelForces")
+_surfs("PanelForcesSurf", "aerodynamics.panel_forces_surf.PanelForcesSurf")
+_surfs("RotationalVelocity", "aerodynamics.rotational_velocity.RotationalVelocity")
+_surfs("ConvertVelocity", "aerodynamics.convert_velocity.ConvertVelocity")
+_surfs("ConvertVelocity.rot", "aerodynamics.convert_velocity.ConvertVelocity", extra_opts=dict(rotational=True))
+_surfs("ScaleToPrandtlGlauert", "aerodynamics.pg_scale.ScaleToPrandtlGlauert", extra_opts=dict(rotational=True), ranges=[(r"Mach", 0.1, 0.8)])
+_surfs("ScaleFromPrandtlGlauert", "aerodynamics.pg_scale.ScaleFromPrandtlGlauert", ranges=[(r"Mach", 0.1, 0.8)])
+_surfs("RotateToWindFrame", "aerodynamics.pg_wind_rotation.RotateToWindFrame", extra_opts=dict(rotational=True))
+_surfs("RotateFromWindFrame", "aerodynamics.pg_wind_rotation.RotateFromWindFrame")
+
+
+# ------------------------------------------------------------------------------------------- structures / transfer
+
+NY = [dict(nx=2, ny=3), dict(nx=2, ny=2, _tier=T), dict(nx=2, ny=4, _tier=T), dict(nx=3, ny=5, _tier=T)]
+TUBE = [dict(model="tube")]
+BOX = [dict(model="wingbox")]
+MODELS = [dict(model="tube"), dict(model="wingbox")]
+POS = [(r"(^|\.)(A|Iy|Iz|J|radius|thickness|element_lengths|Qz|A_enc|A_int|spar_thickness|skin_thickness|htop|hbottom|hfront|hrear|"
+        r"structural_mass|element_mass|fuel_mass|W0|CT|R|speed_of_sound|rho|v|S_ref|re|fuelburn)\b", 0.4, 1.6)]
+NODES = [(r"nodes.*\]\[1\]$", -3.0, 3.0)]
+
+
+def _struct(name, path, models=MODELS, sym=SYM_Q, ny=NY, **kw):
+    return _surf(name, path, cfgs=product(ny, sym, models), ranges=tuple(kw.pop("ranges", ())) + tuple(POS), **kw)
+
+
+_struct("ComputeNodes", "structures.compute_nodes.ComputeNodes")
+_struct("Length", "structures.length.Length", models=TUBE)
+_struct("Transform", "structures.transform.Transform", models=TUBE, cost=5)
+_struct("LocalStiff", "structures.local_stiff.LocalStiff", models=TUBE)
+_struct("LocalStiffPermuted", "structures.local_stiff_permuted.LocalStiffPermuted", models=TUBE, cost=5)
+_struct("LocalStiffTransformed", "structures.local_stiff_transformed.LocalStiffTransformed", models=TUBE, cost=30)
+_struct("Weight", "structures.weight.Weight", models=TUBE)
+_struct("StructuralCG", "structures.structural_cg.StructuralCG", models=TUBE)
+_struct("CreateRHS", "structures.create_rhs.CreateRHS", models=TUBE,
+        ranges=[(r"total_loads", 1.0, 5.0)])
+_struct("Disp", "structures.disp.Disp", models=TUBE)
+_struct("Energy", "structures.energy.Energy", models=TUBE)
+_struct("FailureExact", "structures.failure_exact.FailureExact")
+_struct("FailureKS", "structures.failure_ks.FailureKS", pre=lambda env, h: env.generic_position(True),
+        ranges=[(r"vonmises", 5e7, 3e8)])
+_struct("SectionPropertiesTube", "structures.section_properties_tube.SectionPropertiesTube", models=TUBE,
+        ranges=[(r"thickness", 0.1, 0.3), (r"radius", 0.5, 1.0)])
+_struct("NonIntersectingThickness", "structures.non_intersecting_thickness.NonIntersectingThickness", models=TUBE)
+_struct("VonMisesTube", "structures.vonmises_tube.VonMisesTube", models=TUBE, cost=20,
+        pre=lambda env, h: env.use_helpers("structures_utils"))
+_struct("VonMisesWingbox", "structures.vonmises_wingbox.VonMisesWingbox", models=BOX, cost=20)
+_struct("SectionPropertiesWingbox", "structures.section_properties_wingbox.SectionPropertiesWingbox", models=BOX)
+_struct("WingboxGeometry", "structures.wingbox_geometry.WingboxGeometry", models=BOX)
+_struct("WingboxFuelVol", "structures.fuel_vol.WingboxFuelVol", models=BOX)
+_struct("WingboxFuelVolDelta", "structures.wingbox_fuel_vol_delta.WingboxFuelVolDelta", models=BOX)
+_struct("FuelLoads", "structures.fuel_loads.FuelLoads", models=BOX)
+_struct("SparWithinWing", "structures.spar_within_wing.SparWithinWing", models=TUBE)
+_struct("StructureWeightLoads", "structures.wing_weight_loads.StructureWeightLoads", models=TUBE, cost=10)
+_struct("ComputePointMassLoads", "structures.compute_point_mass_loads.ComputePointMassLoads", models=TUBE,
+        surf_kw=dict(n_point_masses=2))
+_struct("ComputeThrustLoads", "structures.compute_thrust_loads.ComputeThrustLoads", models=TUBE,
+        surf_kw=dict(n_point_masses=2))
+_struct("TotalLoads", "structures.total_loads.TotalLoads", models=TUBE)
+_struct("TotalLoads.all", "structures.total_loads.TotalLoads", models=TUBE,
+        surf_kw=dict(struct_weight_relief=True, distributed_fuel_weight=True, n_point_masses=1))
+_struct("RadiusComp", "geometry.radius_comp.RadiusComp", models=TUBE)
+_struct("LoadTransfer", "transfer.load_transfer.LoadTransfer")
+_struct("DisplacementTransfer", "transfer.displacement_transfer.DisplacementTransfer", models=TUBE, cost=5)
+_struct("ComputeTransformationMatrix", "transfer.compute_transformation_matrix.ComputeTransformationMatrix", models=TUBE, cost=5)
+
+_surf("MonotonicConstraint", "geometry.monotonic_constraint.MonotonicConstraint", extra_opts=dict(var_name="chord"),
+      cfgs=product(NY, SYM_Q))
+
+# ------------------------------------------------------------------------------------------- functionals / common
+
+_surfs("BreguetRange", "functionals.breguet_range.BreguetRange", ranges=POS + [(r"CL|CD", 0.2, 0.6), (r"Mach", 0.3, 0.8)])
+_surfs("CenterOfGravity", "functionals.center_of_gravity.CenterOfGravity", ranges=POS)
+_surfs("Equilibrium", "functionals.equilibrium.Equilibrium", ranges=POS)
+_surfs("MomentCoefficient", "functionals.moment_coefficient.MomentCoefficient", ranges=POS)
+_surfs("SumAreas", "functionals.sum_areas.SumAreas", ranges=POS)
+_surfs("TotalLiftDrag", "functionals.total_lift_drag.TotalLiftDrag", ranges=POS)
+
+
+@job("deriv.ReynoldsComp", ("C01", "C03"), ranges=POS + [(r"mu", 0.5, 1.5)])
+def _reynolds(env):
+    derivative_contract(env, lambda: cls("common.reynolds_comp.ReynoldsComp")())
+
+
+@job("deriv.MultiCD", ("C01", "C03"), cfgs=[dict(n_points=1), dict(n_points=3)])
+def _multicd(env, n_points):
+    derivative_contract(env, lambda: cls("integration.multipoint_comps.MultiCD")(n_points=n_points))
